@@ -14,6 +14,12 @@ inductive CodeKind
   | subscribeReason | unsubscribeReason | retainHandling | propertyId
   deriving DecidableEq, Repr, Inhabited
 
+/-- The property-carrying positions of MQTT 5.0 packets (CONNECT has two: its own and the will's). -/
+inductive PropHost
+  | connect | will | connack | publish | puback | pubrec | pubrel | pubcomp
+  | subscribe | suback | unsubscribe | unsuback | disconnect | auth
+  deriving DecidableEq, Repr, Inhabited
+
 /-- One row of `Header::new_with(b, _)`: packet type nibble as decoded, dup, qos, retain. -/
 structure HeaderRow where
   typ : UInt8
